@@ -1,6 +1,8 @@
 """Sidecar contracts. MODULES lists the spec modules the checker loads (order = report order)."""
 MODULES = [
     "specs.helper",
+    "specs.mypy_helpers",
     "specs.types",
     "specs.generator",
+    "specs.pipeline",
 ]
